@@ -312,7 +312,10 @@ MEMBER_METHODS = {"predict", "predict_proba", "transform", "decision_function",
                   "inverse_transform", "predict_log_proba"}
 MUTATORS = {"append", "extend", "reverse", "sort", "update", "add", "pop", "insert", "clear",
             "setdefault", "remove", "popitem", "discard", "fit", "fit_transform", "partial_fit",
-            "set_params", "seed", "shuffle"}
+            "set_params", "seed", "shuffle", "fill", "put", "itemset", "resize", "partition",
+            "setflags", "byteswap"}
+# numpy functions that write into their FIRST argument
+INPLACE_FUNCS = {"copyto", "put", "place", "putmask", "fill_diagonal", "put_along_axis", "shuffle"}
 PURE_BUILTINS = {"int", "float", "str", "abs", "min", "max", "sum", "round", "sorted", "tuple",
                  "set", "dict", "any", "all", "bool", "repr", "type", "hasattr", "getattr",
                  "isinstance", "issubclass", "print", "warn", "divmod", "pow", "map", "filter",
@@ -1129,6 +1132,13 @@ class Interp:
 
     def ev_Call(self, e, env):
         f = e.func
+        if self.cur() is not None and not (isinstance(f, ast.Attribute)
+                                           and isinstance(f.value, ast.Name)
+                                           and f.value.id in self.mod.modnames):
+            for k in e.keywords:
+                if k.arg == "out" and not self.is_local(k.value):
+                    raise Reject("L%d: out= writes into a buffer that outlives the row iteration"
+                                 % e.lineno)
         if any(k.arg is None for k in e.keywords):
             vals = [self.ev(k.value, env) for k in e.keywords if k.arg is None]
             if any(v.k != "P" for v in vals):
@@ -1377,6 +1387,21 @@ class Interp:
         kwvals = {k: self.ev(v, env) for k, v in kws.items()}
         allv = vals + list(kwvals.values())
         top = label.split(".")[0]
+        # writes into an existing array (np.copyto(buf, ..), out=buf): only into an object created in
+        # the current row iteration - a buffer that outlives the row carries one row into the next
+        targets = []
+        if name in INPLACE_FUNCS and e.args:
+            targets.append(e.args[0])
+        if "out" in kws:
+            targets.append(kws["out"])
+        for tg in targets:
+            tv = self.ev(tg, env)
+            if self.cur() is not None:
+                if not self.is_local(tg):
+                    raise Reject("L%d: %s writes into %s, a buffer that outlives the row iteration "
+                                 "(state shared between rows)" % (e.lineno, name, _fname(tg)))
+            elif tv.k not in ("P",) or self.root_name(tg) in (None, "self"):
+                raise Reject("L%d: %s writes into a %s value" % (e.lineno, name, tv.k))
         if not self.has_panel(allv):
             if name == "DataFrame" and top == "pandas" and not allv:
                 return Val("EMPTYFRAME")
